@@ -51,9 +51,20 @@ impl BackendCfg {
             self.rotation,
         )
     }
-    /// The server's start-up decision: MANIFEST present => strict recover, else fresh start.
+    /// The server's start-up decision (transcription of main()): MANIFEST present, or the
+    /// directory still holds a snapshot / a WAL segment longer than its 4-byte header => strict
+    /// recover; else fresh start.
     pub fn start(&self, dir: &Path) -> anyhow::Result<HnswBackend> {
-        if dir.join("MANIFEST").exists() {
+        let holds_state = std::fs::read_dir(dir)
+            .map(|rd| {
+                rd.flatten().any(|e| {
+                    let n = e.file_name().to_string_lossy().to_string();
+                    let len = e.metadata().map(|m| m.len()).unwrap_or(0);
+                    (n.starts_with("snapshot_") && len > 0) || (n.starts_with("wal_") && n.ends_with(".wal") && len > 4)
+                })
+            })
+            .unwrap_or(false);
+        if dir.join("MANIFEST").exists() || holds_state {
             self.recover(dir)
         } else {
             self.open_fresh(dir)
